@@ -10,6 +10,7 @@ package tbtc
 import (
 	"context"
 	"fmt"
+	"sort"
 	"sync"
 	"testing"
 	"testing/synctest"
@@ -81,6 +82,11 @@ func c23Run(t *testing.T, r *verifsim.Run) {
 			gates.PointAs(label, "onWindowFn")
 		}
 	}
+	setSlow := func(b bool) {
+		obs.mu.Lock()
+		slowNext = b
+		obs.mu.Unlock()
+	}
 	go func() {
 		watchCoordinationWindows(ctx, watchFn, onWindow)
 		obs.mu.Lock()
@@ -97,6 +103,7 @@ func c23Run(t *testing.T, r *verifsim.Run) {
 	cancelled := false
 	last := start // last offered value
 	head := start // highest "true" height
+	handoffStuck := false
 
 	check := func(what string) bool {
 		obs.mu.Lock()
@@ -140,6 +147,63 @@ func c23Run(t *testing.T, r *verifsim.Run) {
 		return true
 	}
 
+	// checkBurst judges the invocations caused by a hand-off burst without
+	// relying on the order in which the callback goroutines got to run: the
+	// new invocations are taken as a set and compared with what a watcher
+	// reading the handed elements in order may start at all.
+	checkBurst := func(handedElems []uint64, what string) bool {
+		obs.mu.Lock()
+		calls := append([]uint64(nil), obs.calls...)
+		nilW := obs.nilW
+		obs.mu.Unlock()
+		if nilW > 0 {
+			r.Failf("C23:nil-window", "onWindowFn invoked with a nil window after %s", what)
+			return false
+		}
+		fresh := append([]uint64(nil), calls[seen:]...)
+		seen = len(calls)
+		sort.Slice(fresh, func(i, j int) bool { return fresh[i] < fresh[j] })
+		// windows a sequential reader may start, by the statement
+		may := map[uint64]bool{}
+		m := maxInvoked
+		for _, v := range handedElems {
+			if v > 0 && v%c23Freq == 0 && v > m && !invoked[v] {
+				may[v] = true
+				m = v
+			}
+		}
+		for i, b := range fresh {
+			r.Logf("  onWindow block=%d", b)
+			switch {
+			case b == 0 || b%c23Freq != 0:
+				r.Failf("C23:not-a-window", "onWindowFn invoked for block %d which is not a positive multiple of %d (event: %s)", b, c23Freq, what)
+			case !offered[b]:
+				r.Failf("C23:never-offered", "onWindowFn invoked for block %d which the block stream never carried (event: %s)", b, what)
+			case invoked[b] || (i > 0 && fresh[i-1] == b):
+				r.Failf("C23:window-twice", "onWindowFn invoked a second time for the window starting at block %d (event: %s; invocations of this burst %v)", b, what, fresh)
+			case b < maxInvoked:
+				r.Failf("C23:window-regressed", "onWindowFn invoked for window %d after a later window %d had already been started (event: %s)", b, maxInvoked, what)
+			case !may[b] && !handoffStuck:
+				r.Failf("C23:window-regressed", "onWindowFn invoked for window %d although a later window was handed over earlier in the same burst (event: %s; invocations of this burst %v)", b, what, fresh)
+			}
+			if r.Failed() {
+				return false
+			}
+			r.Probe("window-started")
+			r.Probe("window-started-in-handoff-burst")
+		}
+		for _, b := range fresh {
+			invoked[b] = true
+			if b > maxInvoked {
+				maxInvoked = b
+			}
+		}
+		if len(fresh) >= 2 {
+			r.Probe("two-windows-in-one-handoff-burst")
+		}
+		return true
+	}
+
 	offer := func(v uint64, kind string) {
 		offered[v] = true
 		last = v
@@ -155,18 +219,21 @@ func c23Run(t *testing.T, r *verifsim.Run) {
 		// kinds: 0 next, 1 repeat, 2 skip ahead (gap), 3 regress, 4 jump onto a
 		// window boundary neighbourhood, 5 burst with omissions, 6 release a
 		// parked callback, 7 cancel
-		w := []int{10, 3, 3, 3, 6, 2, 0, 0}
+		w := []int{10, 3, 3, 3, 6, 2, 0, 0, 0}
 		if len(gates.List()) > 0 {
 			w[6] = 3
 		}
 		if !cancelled {
 			w[7] = 1
+			if !handoffStuck {
+				w[8] = 4
+			}
 		}
 		k := tp.Weighted("event", w...)
 		what := ""
 		switch k {
 		case 0:
-			slowNext = tp.Chance("slow-callback", 1, 3)
+			setSlow(tp.Chance("slow-callback", 1, 3))
 			// a monotone step of the true head (goes through Advance so that
 			// the height moves as well)
 			if last == nb.Height() {
@@ -183,12 +250,12 @@ func c23Run(t *testing.T, r *verifsim.Run) {
 			r.AddSim(0, 1)
 			what = fmt.Sprintf("next %d", last)
 		case 1:
-			slowNext = tp.Chance("slow-callback", 1, 3)
+			setSlow(tp.Chance("slow-callback", 1, 3))
 			r.Fault("block-repeated")
 			offer(last, "repeat")
 			what = fmt.Sprintf("repeat %d", last)
 		case 2:
-			slowNext = tp.Chance("slow-callback", 1, 3)
+			setSlow(tp.Chance("slow-callback", 1, 3))
 			gap := uint64(2 + tp.Choose("gap", 5))
 			if tp.Chance("gap-over-window", 1, 3) {
 				gap += c23Freq
@@ -198,7 +265,7 @@ func c23Run(t *testing.T, r *verifsim.Run) {
 			offer(last+gap, "skip")
 			what = fmt.Sprintf("skip to %d", last)
 		case 3:
-			slowNext = tp.Chance("slow-callback", 1, 3)
+			setSlow(tp.Chance("slow-callback", 1, 3))
 			var v uint64
 			switch tp.Choose("regress-kind", 4) {
 			case 0: // a little back
@@ -222,7 +289,7 @@ func c23Run(t *testing.T, r *verifsim.Run) {
 			offer(v, "regress")
 			what = fmt.Sprintf("regress to %d", v)
 		case 4:
-			slowNext = tp.Chance("slow-callback", 1, 3)
+			setSlow(tp.Chance("slow-callback", 1, 3))
 			m := uint64(tp.Choose("window", 7))
 			off := []int64{0, -1, 1, -2, 2}[tp.Weighted("off", 4, 2, 1, 1, 1)]
 			v := int64(m*c23Freq) + off
@@ -243,7 +310,7 @@ func c23Run(t *testing.T, r *verifsim.Run) {
 			// watcher is too busy to take is lost, which to the watcher is the
 			// same as an element never offered, so the tape decides the lost
 			// ones and every offered one is taken at quiescence.
-			slowNext = tp.Chance("slow-callback", 1, 3)
+			setSlow(tp.Chance("slow-callback", 1, 3))
 			n := 2 + tp.Choose("burst", 5)
 			base := last
 			r.Fault("block-burst")
@@ -263,6 +330,73 @@ func c23Run(t *testing.T, r *verifsim.Run) {
 			}
 			r.AddSim(0, int64(n))
 			what = fmt.Sprintf("burst to %d", last)
+		case 8:
+			// a hand-off burst: a helper goroutine hands 2-4 elements to the
+			// watcher back-to-back with blocking sends and NO quiescence in
+			// between, so the watcher reads the next element while the
+			// callback goroutine of the previous one may not have run yet. The
+			// outcome of such a burst is judged order-independently (below);
+			// the -race build sees unsynchronised bookkeeping.
+			setSlow(tp.Chance("slow-callback", 1, 3))
+			n := 2 + tp.Choose("handoff-n", 3)
+			var elems []uint64
+			prev := last
+			for i := 0; i < n; i++ {
+				var v uint64
+				switch tp.Weighted("handoff-elem", 5, 2, 2, 1) {
+				case 0:
+					v = uint64(tp.Choose("window", 7)) * c23Freq
+				case 1:
+					v = prev
+				case 2:
+					v = uint64(1+tp.Choose("window", 6))*c23Freq - 1 + 2*uint64(tp.Choose("side", 2))
+				default:
+					v = prev + 1
+				}
+				elems = append(elems, v)
+				prev = v
+			}
+			for _, v := range elems {
+				offered[v] = true
+			}
+			handed := 0
+			finished := false
+			go func() {
+				for _, v := range elems {
+					ok := nb.EmitRawBlocking(v)
+					obs.mu.Lock()
+					if ok {
+						handed++
+					}
+					obs.mu.Unlock()
+					if !ok {
+						break
+					}
+				}
+				obs.mu.Lock()
+				finished = true
+				obs.mu.Unlock()
+			}()
+			synctest.Wait()
+			obs.mu.Lock()
+			h, fin := handed, finished
+			obs.mu.Unlock()
+			r.Fault("handoff-burst")
+			r.Logf("handoff %v handed=%d finished=%v", elems, h, fin)
+			last = elems[len(elems)-1]
+			if last > head {
+				head = last
+			}
+			if !fin || h != len(elems) {
+				// the watcher did not take everything (it is busy or gone):
+				// from now on only value-based clauses apply, no more hand-offs
+				handoffStuck = true
+				r.Probe("handoff-not-completed")
+			}
+			if !checkBurst(elems[:h], fmt.Sprintf("hand-off burst %v", elems)) {
+				return
+			}
+			continue
 		case 6:
 			ps := gates.List()
 			p := ps[tp.Choose("release", len(ps))]
